@@ -43,13 +43,13 @@ impl Profile {
 /// The C06 size table (without the "minus current length" variants, which are added per call).
 pub fn size_table() -> Vec<usize> {
     let mut v: Vec<usize> = vec![0, 1, 15, 16, 17];
-    for i in 0..64u32 {
+    for i in 0..usize::BITS {
         let p = 1usize << i;
         for d in [-2i64, -1, 0, 1, 2] {
             v.push(p.wrapping_add(d as usize));
         }
     }
-    let m56 = (1usize << 56) - 1;
+    let m56 = MAX_CAP;
     for d in [-2i64, -1, 0, 1, 2] {
         v.push(m56.wrapping_add(d as usize));
         v.push((isize::MAX as usize).wrapping_add(d as usize));
